@@ -102,3 +102,19 @@ Definition coord_eqb (a b : Z * Z) : bool := zpair_eqb a b.
 Definition cellpos_eqb (a b : Z * Z * val) : bool := zpair_eqb (fst a) (fst b) && val_eqb (snd a) (snd b).
 Definition any_true (l : list bool) : bool := existsb (fun x => x) l.
 Definition all_true (l : list bool) : bool := forallb (fun x => x) l.
+
+(* ---------- np.clip on one cell = minimum(maximum(x, lo), hi); NaN propagates ---------- *)
+Definition v_le (a b : val) : bool :=
+  match num_view a, num_view b with
+  | Some (n1, d1), Some (n2, d2) => n1 * d2 <=? n2 * d1
+  | _, _ => true
+  end.
+Definition v_max (a b : val) : val :=
+  match a, b with VNaN, _ | _, VNaN => VNaN | _, _ => if v_le a b then b else a end.
+Definition v_min (a b : val) : val :=
+  match a, b with VNaN, _ | _, VNaN => VNaN | _, _ => if v_le a b then a else b end.
+Definition v_clip (x : val) (lo hi : option val) : val :=
+  let y := match lo with Some l => v_max x l | None => x end in
+  match hi with Some h => v_min y h | None => y end.
+Definition M_clip_v := M_clip (A := val) v_clip.
+Definition S_clip_v := S_clip (A := val) v_clip.
